@@ -84,7 +84,11 @@ func sysStart(kinds []int, nreq int, budget int) *sysRun {
 	if !verifSymbolic() {
 		unit = 10 * time.Millisecond // native replay: scaled durations
 	}
-	cli, err := NewReconnectClient(b, WithReconnectWait(unit, 4*unit), WithTimeout(10*unit), WithRetryClient(rc), WithAlwaysResubscribe(always))
+	ropts := []ReconnectOption{WithReconnectWait(unit, 4*unit), WithTimeout(10*unit), WithAlwaysResubscribe(always)}
+	if verifParam("defaultrc", 0) == 0 || verifChoice("defaultrc", 2) == 0 {
+		ropts = append(ropts, WithRetryClient(rc))
+	} // else: the default retrying client of NewReconnectClient (documented default: queued mode)
+	cli, err := NewReconnectClient(b, ropts...)
 	verifAssert(err == nil, "SYS.new_client")
 	s.cli = cli
 	for i := 0; i < nreq; i++ {
